@@ -193,6 +193,11 @@ func (c *conn) receive() (err error) {
 	default:
 		return
 	}
+	if len(body) < 4 {
+		// shorter than the index header
+		err = core.InvalidResponseError{Response: body}
+		return
+	}
 	index, ok := parseHeader(body[:4])
 	body = body[4:]
 	if !ok {
